@@ -3,6 +3,7 @@ import ZapVerif.Proofs.Core
 import ZapVerif.Proofs.CoreTrace
 import ZapVerif.Gen.FrontEnds
 import ZapVerif.Model.Deliver
+import ZapVerif.Props.C10
 /-! # C06 — Panic and Fatal always terminate, after the entry is written and flushed
 
 The front ends, their levels and every guard between an exported method and `Logger.check` are the regenerated
@@ -196,5 +197,39 @@ theorem terminal_ignores_outcomes (en : Bool) (sinks : List Deliver.Sink) :
 
 example : Deliver.ceWrite (.tee [.io true [⟨0, true, false⟩], .io true [⟨1, false, false⟩]]) true =
     [.wrote 0, .wrote 1, .errLine, .term] := by decide
+
+end ZapVerif.C06
+
+/-! ## the terminal hook in `CheckedEntry.Write` IS the source (Go→GoMini translation, docs/TRANSLATOR.md)
+
+From `Gen/TransCE.lean` (the body of `(*CheckedEntry).Write` read from zapcore/entry.go on this run; main theorem
+`C10.CheckedEntry_Write_matches_source`): with a terminal hook set, `Write` makes exactly the calls it makes without
+one — every core written, the failure report — and then calls `hook.OnWrite` exactly once, immediately before the
+pool put, WHATEVER the cores returned.  This is the source-level content of `terminal_despite_sink_failures`
+(`C10.CheckedEntry_Write_is_ceWrite` reads the trace as `Deliver.ceWrite`). -/
+namespace ZapVerif.C06
+open ZapVerif.GoMini ZapVerif.TransCE
+
+theorem CheckedEntry_Write_hook_matches_source (cs : List (Nat × List Val)) (eo : List Val) (hook : Val)
+    (time entry self fs : Val) (ev : List Val) (fuel : Nat) :
+    ∃ pre : List Val,
+      run X (fuel + 1) "Write" [fs] (ceFld false false eo [hook] (cs.map coreOf) time entry self ev) =
+        .done [] (ceFld false true eo [hook] (cs.map coreOf) time entry self
+          (ev ++ pre ++ [evHook [hook] self fs, evPut self])) ∧
+      run X (fuel + 1) "Write" [fs] (ceFld false false eo [] (cs.map coreOf) time entry self ev) =
+        .done [] (ceFld false true eo [] (cs.map coreOf) time entry self (ev ++ pre ++ [evPut self])) ∧
+      (∀ e ∈ pre, e ≠ evHook [hook] self fs ∧ e ≠ evPut self) := by
+  refine ⟨cs.map (fun c => evCore (coreOf c) entry fs) ++
+    (if cs.flatMap (·.2) ≠ [] ∧ eo ≠ [] then [evErrLine eo time (cs.flatMap (·.2)), evErrSync eo] else []), ?_, ?_, ?_⟩
+  · rw [C10.CheckedEntry_Write_matches_source]; simp [expected, List.append_assoc]
+  · rw [C10.CheckedEntry_Write_matches_source]; simp [expected, List.append_assoc]
+  · intro e he
+    simp only [List.mem_append, List.mem_map] at he
+    rcases he with ⟨c, _, rfl⟩ | he
+    · simp [evCore, evHook, evPut, nm_coreWrite, nm_hook, nm_put]
+    · split at he
+      · simp only [List.mem_cons, List.not_mem_nil, or_false] at he
+        rcases he with rfl | rfl <;> simp [evErrLine, evErrSync, evHook, evPut, nm_fprintf, nm_sync, nm_hook, nm_put]
+      · cases he
 
 end ZapVerif.C06
